@@ -132,7 +132,10 @@ def c19_4(c: Ctx) -> None:
         e = a.name or 'e'
         filt = [n for n in g.live_nodes() if n.kind == 'if' and 'retry_on' in U(n.ast.test) and q.lexically_in(n.ast, a)]
         want = {f'retry_on is not None', f'not isinstance({e}, retry_on)'}
-        good = [n for n in filt if isinstance(n.ast.test, ast.BoolOp) and isinstance(n.ast.test.op, ast.And) and {U(v) for v in n.ast.test.values} == want
+        from sa.facts import equivalent
+
+        want_expr = ast.parse(f'retry_on is not None and not isinstance({e}, retry_on)', mode='eval').body
+        good = [n for n in filt if equivalent(n.ast.test, want_expr) is True
                 and len(n.ast.body) == 1 and isinstance(n.ast.body[0], ast.Raise) and (n.ast.body[0].exc is None or U(n.ast.body[0].exc) == e)]
         if not good:
             c.fail(u, f'no `if retry_on is not None and not isinstance({e}, retry_on): raise` in the attempt arm (found {[U(n.ast.test)[:50] for n in filt]})', 'exceptions not listed in retry_on are retried (or listed ones are not)', node=a)
@@ -177,6 +180,22 @@ def c19_5(c: Ctx) -> None:
             if not reaching or isinstance(reaching[-1], ast.AugAssign) or arg.id in u.params():
                 raise AnalysisError(f'C19.5 undecided: the sleep argument `{arg.id}` is computed in a form the canonicaliser cannot relate to a closed form')
             expr = reaching[-1].value
+        # locals that are plain copies / linear abbreviations of other names (e.g. a hoisted argument of a folded helper) are written out
+        import copy as _copy
+
+        single = {}
+        for d_ in own_nodes(u.node):
+            if isinstance(d_, ast.Assign) and len(d_.targets) == 1 and isinstance(d_.targets[0], ast.Name):
+                single.setdefault(d_.targets[0].id, []).append(d_.value)
+
+        class _Res(ast.NodeTransformer):
+            def visit_Name(self, node):
+                vs = single.get(node.id, [])
+                if len(vs) == 1 and isinstance(vs[0], ast.Name) and node.id != vs[0].id and node.id not in u.params():
+                    return _copy.deepcopy(vs[0])
+                return node
+
+        expr = _Res().visit(_copy.deepcopy(expr)) if expr is not None else expr
         got = canon(expr)
         if got == want:
             c.ok(where(u, s), f'sleep argument = {U(expr)} ≡ wait * backoff_factor ** {k}')
